@@ -848,6 +848,10 @@ Definition check (c : sexp) : sexp :=
                               ++ (match conns with [] => [] | _ => ["connections"] end)
                               ++ (if existsb (sexp_exists (is_field_with is_gen)) body then ["list-or-object-argument"] else [])
                               ++ (match xvars with [] => [] | _ => ["list-or-object-variable-value-given"] end)
+                              ++ (match field1 "timed" l with
+                                  | Some b => match as_bool b with Some true => ["time-based-connection"] | _ => [] end
+                                  | None => []
+                                  end)
                               ++ (match obs_calls with
                                   | Some [] => ["calls-compared"]
                                   | Some _ => ["calls-compared"; "calls-nonempty"]
